@@ -30,6 +30,21 @@ TEXT = {
  "C17": ("exploration", "endpoint observed against a scripted peer (silence from every flight boundary, new flight after b rungs, stale replays, junk) for both roles, 7 variants, intervals 1 ms..60 s, backoff on/off; emission instants compared exactly with the schedule on virtual time",
          "timer law checked at the granularity of emissions on the injected PacketConn; DTLS 1.3 under stale replays judged by the weak law only",
          "property-based testing (rapid) + enumerated silence grid on a virtual clock; oracle = exact retransmission-schedule model"),
+ "C14": ("exploration", "histories of <=12 actions over recording client/server session stores (connects with fault masks/EMS/suites/CID, overlapping connects, store mutations, provoked fatal alerts); invariant after every step",
+         "DTLS 1.2 only (1.3 tickets are never consumed in this tree); store model = harness stores; Finished-forgery in the abbreviated handshake is covered under C04",
+         "stateful property-based testing (rapid action sequences) against a session-store model on a virtual network/clock"),
+ "C16": ("exploration", "Close placed at every datagram-count event / virtual instant / after establishment for 7 variants, 1..4 concurrent closers, 1..3 calls each, pending Handshake/Read/Write/UpdateKeys; close_notify counted with the independent decoder; goroutine-leak scan; concurrent API op lists also run under the race detector; deadlines at exact virtual instants",
+         "goroutine interleavings are those the scheduler, repetition and the race detector reach; pending calls during a handshake that needs timers are not generated (a goroutine parked on the handshake mutex blocks synctest's virtual clock)",
+         "property-based testing (rapid) + enumerated placement grid in a synctest bubble, race-detector build for the concurrent-API scenarios; oracle = lifecycle invariants over recorded calls and tapped alerts"),
+ "C18": ("exploration", "~70 codecs: seed encodings harvested from genuine 1.2/1.3 traffic via the independent decoder, mutated (every truncation and single-byte change swept, extensions, random); rapid.Make value round trips; datagram partition by the three unpackers",
+         "equality structural with nil/empty slices identified; values restricted to the wire-representable domain by per-codec predicates; decoders that drop unknown enum members are judged on canonical re-encoding only",
+         "property-based testing (rapid) + exhaustive mutation sweep; oracles = round trip, canonical fixed point, declared-length rules, exact partition"),
+ "C19": ("exploration", "DTLS 1.2 sessions over 13 suites x CID/SRTP/ALPN/EMS/PSK, traffic prefix up to 50 records each way, export on client/server/both, optional second export; corruption of the serialised bytes (bit, every truncation, field-aware edits, random)",
+         "export points are quiescent points; corruption judged 'key material intact' by re-decoding through a gob mirror",
+         "property-based testing (rapid) + enumerated corruption grid; oracle = parameters/exporter unchanged, data both ways exactly once, sequence numbers monotone across the seam; corrupted state rejected or unable to authenticate, never a panic"),
+ "C20": ("exploration", "1.3 sessions with generated operation lists for both sides (UpdateKeys with/without request, write bursts, idle, parallel goroutines) under fault scripts on post-handshake datagrams and total ACK starvation; judged on the decrypted tap",
+         "traffic secrets observed through the verif hook, keys derived by the reference implementation; epoch overflow not reached",
+         "property-based testing (rapid) of operation schedules with fault injection; oracle = ACK-before-success, exactly-once payload multiset, epoch monotonicity, traffic-update successor law via independent decoder"),
 }
 
 def main():
